@@ -37,7 +37,7 @@ RULE = ("each run builds a chain of 1-4 components (real RateLimiter, AccessCont
         "of the runs uses start_server()'s own chain assembly. distinct = distinct (chain shape, "
         "decision vector, event signature); non-trivial = some component rejected, raised or was "
         "slow, or the request was titan")
-PROBES = ["client_sends_extra_chain_certificate", "policy_decisions_checked", "chain_rejected", "chain_raised", "slow_component", "titan_with_chain",
+PROBES = ["overlapping_identical_requests", "client_sends_extra_chain_certificate", "policy_decisions_checked", "chain_rejected", "chain_raised", "slow_component", "titan_with_chain",
           "content_arrived_while_chain_undecided", "peer_left_while_chain_undecided",
           "client_cert_presented", "ipv6_peer", "real_handlers", "start_server_assembly",
           "timer_fired_while_chain_undecided", "flood_1000_pending_requests", "policy_from_toml"]
@@ -320,6 +320,21 @@ def run_one(ch):
         info["leave"] = ch.pick("leave", [None, 0.001, 0.1, 2.0], [8, 1, 1, 1])
         conns.append(info)
 
+    # two or three overlapping IDENTICAL requests (same URL, same peer address, same certificate):
+    # each is judged by its own walk through the chain
+    dup = assembly == 0 and nconn >= 2 and ch.chance("duplicates", 0.1)
+    if dup:
+        for c_ in conns[1:]:
+            for k_ in ("kind", "titan", "valid", "size", "stream", "path", "query", "port", "ip", "cert"):
+                if k_ in conns[0]:
+                    c_[k_] = conns[0][k_]
+                else:
+                    c_.pop(k_, None)
+            c_["start"] = ch.pick("dupstart", [0.0, 0.001, 0.01])
+            c_["dup"] = True
+        conns[0]["dup"] = True
+        res.stats["overlapping_identical_requests"] += 1
+
     async def main():
         srv_task = None
         server = None
@@ -418,7 +433,22 @@ def run_one(ch):
 
     snap_after = (sw.snapshot(docroot), sw.snapshot(updir))
     any_reject = any_raise = False
+    if dup and conns[0]["valid"]:
+        mark0 = "/c0/" if not conns[0]["titan"] else "/up/t0.txt"
+        runs = len([e for e in (ulog if conns[0]["titan"] else hlog) if mark0 in (e[1] or "")])
+        last = comps[-1].name
+        walks_allowed = len([e for e in log if mark0 in (e["url"] or "") and e["comp"] == last
+                             and e["out"] and e["out"][0] == "allow"])
+        if runs > walks_allowed:
+            res.violate("C04/handler-ran-without-chain/duplicate-requests/" + mode,
+                        f"{len(conns)} overlapping identical requests: the handler ran {runs} times but only "
+                        f"{walks_allowed} walks through the chain ended in 'allow' - a verdict was handed to "
+                        f"a request the chain never judged", chain=descr, request=conns[0]["stream"][:100],
+                        consultations=len([e for e in log if mark0 in (e["url"] or "")]))
     for i, c in enumerate(conns):
+        if c.get("dup"):
+            res.stats["connections"] += 1
+            continue
         peer = c["peer"]
         rx = bytes(peer.rx_plain)
         mark = f"/c{i}/" if not c["titan"] else f"/up/t{i}.txt"
@@ -570,6 +600,8 @@ def run_one(ch):
     if real_handlers and assembly == 0:
         res.stats["real_handlers"] += 1
         for i, c in enumerate(conns):
+            if c.get("dup"):
+                continue
             mine = [e for e in log if (f"/up/t{i}.txt" in (e["url"] or ""))]
             allowed = bool(mine) and all(e["out"] and e["out"][0] == "allow" for e in mine) and \
                 len(mine) == len(comps)
